@@ -208,7 +208,8 @@ class MyPyAstVisitor:
             ):
                 inherits_from_exception = True
 
-            if hasattr(superclass, "fullname"):
+            # A superclass of a library that can't be found, e.g. "missing_lib.Base", has no qualified name
+            if getattr(superclass, "fullname", ""):
                 superclass_qname = superclass.fullname
                 superclass_name = superclass_qname.split(".")[-1]
 
